@@ -230,8 +230,15 @@ func (v *Verifier) regexObligations(prop string) []*Obligation {
 			out = append(out, o)
 			continue
 		}
-		code, err1 := regexToSMT(pat)
-		spec, err2 := regexToSMT(rs.SpecRe)
+		var code, spec string
+		var err1, err2 error
+		if rs.Subset {
+			code, err1 = regexFullSMT(pat)
+			spec, err2 = regexFullSMT(rs.SpecRe)
+		} else {
+			code, err1 = regexToSMT(pat)
+			spec, err2 = regexToSMT(rs.SpecRe)
+		}
 		if err1 != nil || err2 != nil {
 			o.Kind = "unsupported"
 			o.Result = &SolverResult{Status: "unsupported", Output: fmt.Sprintf("code pattern %q: %v; spec pattern %q: %v", pat, err1, rs.SpecRe, err2)}
@@ -240,6 +247,11 @@ func (v *Verifier) regexObligations(prop string) []*Obligation {
 		}
 		o.Query = "(declare-const s String)\n(define-fun code.lang () RegLan " + code + ")\n(define-fun spec.lang () RegLan " + spec + ")\n" +
 			"(assert (xor (str.in_re s code.lang) (str.in_re s spec.lang)))"
+		if rs.Subset {
+			o.Query = "(declare-const s String)\n(define-fun code.lang () RegLan " + code + ")\n(define-fun spec.lang () RegLan " + spec + ")\n" +
+				"(assert (and (str.in_re s code.lang) (not (str.in_re s spec.lang))))"
+			o.Src = rs.Global + " matches entirely only strings of the shape " + rs.SpecRe
+		}
 		o.Src += fmt.Sprintf("   (pattern in the code: %q)", pat)
 		o.regexPattern, o.regexSpec = pat, rs.SpecRe
 		out = append(out, o)
@@ -255,4 +267,13 @@ func nonProps(label string) []string {
 		}
 	}
 	return out
+}
+
+// regexFullSMT: the strings the pattern matches entirely (as an element returned by FindAllString is); anchors are not supported here.
+func regexFullSMT(pattern string) (string, error) {
+	re, err := syntax.Parse(pattern, syntax.Perl)
+	if err != nil {
+		return "", fmt.Errorf("pattern does not parse: %v", err)
+	}
+	return reBody(re)
 }
